@@ -566,7 +566,7 @@ func (m *MsgBridgeCallResultClaim) GetSigners() []sdk.AccAddress {
 }
 
 func (m *MsgBridgeCallResultClaim) ClaimHash() []byte {
-	path := fmt.Sprintf("%d/%d/%d/%t/%s", m.BlockHeight, m.EventNonce, m.Nonce, m.Success, m.Cause)
+	path := fmt.Sprintf("%d/%d/%d/%t/%s/%s", m.BlockHeight, m.EventNonce, m.Nonce, m.Success, m.Cause, m.TxOrigin)
 	return tmhash.Sum([]byte(path))
 }
 
